@@ -589,7 +589,15 @@ func (g *gen) declare() *Stmt {
 		vs := g.varsOf(ty)
 		e = &Expr{K: eVar, S: vs[g.tp.Int(0, len(vs)-1, "var")]}
 	}
-	return &Stmt{K: sDeclare, Var: v, E: e, Spell: g.tp.Int(0, 1, "sp")}
+	st := &Stmt{K: sDeclare, Var: v, E: e, Spell: g.tp.Int(0, 1, "sp")}
+	if g.tp.Chance(30, "declas") {
+		st.AsType = map[byte]string{'n': "number", 'b': "bool", 's': "string"}[ty]
+	}
+	if g.cfg.IllTypedSets > 0 && strings.HasPrefix(v, "fresh") && g.tp.Chance(50, "declfails") {
+		// a declaration of a variable that does not exist yet whose initialiser fails: nothing may be left behind
+		st.E = []*Expr{{K: eVar, S: "undefinedZ"}, {K: eCall, S: "nofunc"}, {K: eCall, S: "pfail", A: []*Expr{numLit(1)}}}[g.tp.Int(0, 2, "declfailkind")]
+	}
+	return st
 }
 
 func (g *gen) varsOf(ty byte) []string {
